@@ -2182,7 +2182,40 @@ def gof_worker(args):
     pcvl.random_seed(seed)
     out = {"spec": spec, "via": via, "n_req": n, "seed": seed}
     try:
-        if via == "backend":
+        if via == "backend-retuned" and spec["m"] >= 2:
+            # a LONG-LIVED sampling backend: the same circuit object is re-tuned in place (a variable angle between two
+            # fixed blocks) and handed over again; the samples must follow the distribution of the circuit as it is NOW
+            from perceval.backends import Clifford2017Backend, SLOSBackend
+            import perceval.components as comp
+            from . import gens
+            m = spec["m"]
+
+            def mk(theta):
+                c = pcvl.Circuit(m)
+                c.add(0, pcvl.Unitary(pcvl.Matrix(gens.haar(m, spec["useed"]))))
+                c.add(0, comp.BS(theta=theta))
+                c.add(0, pcvl.Unitary(pcvl.Matrix(gens.haar(m, spec["useed"] + 1))))
+                return c
+            t = pcvl.P("t")
+            c = mk(t)
+            t.set_value(0.3)
+            b = Clifford2017Backend()
+            b.set_circuit(c)
+            b.set_input_state(BasicState(spec["input"]))
+            b.samples(20)
+            t.set_value(2.1)
+            b.set_circuit(c)
+            b.set_input_state(BasicState(spec["input"]))
+            smp = [tuple(s) for s in b.samples(n)]
+            s = SLOSBackend()
+            s.set_circuit(mk(2.1))
+            s.set_input_state(BasicState(spec["input"]))
+            ref = {tuple(k): float(v) for k, v in s.prob_distribution().items()}
+            out.update(ref=list(ref.items()), counts=_count(smp), n=len(smp), phys=None, logical=None,
+                       ref_phys=None, ref_logical=None)
+            out["secs"] = round(time.time() - t0, 2)
+            return out
+        if via in ("backend", "backend-retuned"):
             from perceval.backends import Clifford2017Backend, SLOSBackend
             from . import gens
             u = pcvl.Unitary(pcvl.Matrix(gens.haar(spec["m"], spec["useed"])))
@@ -2856,6 +2889,8 @@ def gof_start(chk, n_cfg, n_samples, nproc, n_both=4):
         if via == "backend":
             kind = "perfect"
         spec = gen_proc_spec(rng, kind)
+        if via == "backend" and (i // len(vias)) % 2 == 0:
+            via = "backend-retuned"      # the long-lived backend whose circuit object is re-tuned in place
         if via == "processor-shots":
             # the performance estimates are tested on these: imperfect processor, a sizeable yield (the shots
             # are counted by the progress callback: the limit is rescaled for an effective filter >= 2)
@@ -2910,6 +2945,8 @@ def gof_finish(chk, handle):
             chk.branch("gof-tagged-inputs")
         if spec["detectors"]:
             chk.branch("gof-detectors")
+        if r["via"] == "backend-retuned" and spec["m"] >= 2:
+            chk.branch("gof-backend-retuned")
         chk.case(("E", spec["kind"], spec["useed"], r["via"]), nontrivial=r.get("n", 0) >= 1000,
                  sample={"part": "gof", "kind": spec["kind"], "via": r["via"], "n": r.get("n"),
                          "support": len(r.get("ref", []))})
@@ -4475,7 +4512,7 @@ def run(chk: core.Check):
         "limits-bound-reached", "limits-empty", "limits-exact-count", "limits-rejected-None-max_samples",
         "limits-rejected-no-limit", "seed-path",
         "gof-perfect", "gof-selected", "gof-noisy", "gof-noisy-selected", "gof-detectors", "gof-everything",
-        "gof-tagged-inputs", "gof-performances", "gof-source-emission", "gof-source-g2", "gof-source-tagged",
+        "gof-tagged-inputs", "gof-backend-retuned", "gof-performances", "gof-source-emission", "gof-source-g2", "gof-source-tagged",
         "gof-source-filtered",
         "gof-bunching-selected", "gof-performances-filter>=2", "gof-performances-shots-failing-both-tests",
         "det-series-step", "det-series-same-name-other-parameters", "det-series-same-description-new-objects",
